@@ -19,6 +19,8 @@ import (
 	"github.com/sarchlab/akita/v5/timing"
 
 	"verif/props/emem"
+	"verif/props/enoc"
+	"verif/props/evm"
 	"verif/sim/kit"
 )
 
@@ -29,6 +31,8 @@ type C07Case struct {
 	Corrupt []Corruption `json:"corrupt"`
 	OnlyMut string       `json:"only_mut,omitempty"` // replay: restrict the mismatch catalogue to this entry
 	PT      []PTOp       `json:"pt,omitempty"`       // operations on a registered stand-alone page table
+	VM      *evm.Cfg     `json:"vm,omitempty"`       // a translation stack instead of the memory hierarchy
+	Net     *enoc.Net    `json:"net,omitempty"`      // a switched network instead
 }
 
 // Corruption is one storage fault applied to the archive bytes / entries.
@@ -174,7 +178,14 @@ func genC07(r *kit.Rand, tier kit.Tier) C07Case {
 	c.Cfg.EventCap = 60000
 	c.Cut = uint64(r.PickInt(0, 1000, 3000, 7000, 15000, 40000, 100000))
 
-	if r.Chance(1, 2) {
+	switch r.Intn(6) {
+	case 0:
+		c.VM = genSimVM(r, tier)
+	case 1:
+		c.Net = genSimNet(r)
+	}
+
+	if c.VM == nil && c.Net == nil && r.Chance(1, 2) {
 		ops := []string{"insert", "insert", "insert", "find", "remove", "update"}
 		for i := 0; i < r.Range(1, 10); i++ {
 			c.PT = append(c.PT, PTOp{Op: ops[r.Intn(len(ops))], PID: uint32(r.Range(1, 4)), VPage: uint64(r.Intn(6)), PPage: uint64(r.Intn(64))})
@@ -364,7 +375,7 @@ func applyCorruption(orig []byte, k Corruption) (damaged []byte, mustFail bool, 
 			return nil, false, false
 		}
 
-		entries[i].data = bytes.Replace(entries[i].data, []byte(`"type":"github.com`), []byte(`"type":"example.org`), 1)
+		entries[i].data = bytes.Replace(entries[i].data, []byte(`"type":"`), []byte(`"type":"example.org/nowhere/`), 1)
 
 		return pack(entries), true, true
 	case "storage-absurd-units", "storage-unit-beyond-capacity":
@@ -429,6 +440,8 @@ func applyCorruption(orig []byte, k Corruption) (damaged []byte, mustFail bool, 
 
 type loadReq struct {
 	Cfg     emem.Config `json:"cfg"`
+	VM      *evm.Cfg    `json:"vm,omitempty"`
+	Net     *enoc.Net   `json:"net,omitempty"`
 	HasPT   bool        `json:"has_pt"`
 	Archive string      `json:"archive"`
 }
@@ -437,8 +450,8 @@ type loadReq struct {
 // memory-limited child process and reports "error: …", "panic: …", "ok" or
 // "ok-but-resave-failed: …". A child that dies (address-space limit, timeout)
 // is reported as "died: …".
-func loadInChild(env *kit.Env, cfg emem.Config, archive []byte) string {
-	in, _ := json.Marshal(loadReq{Cfg: cfg, HasPT: extraPT != nil, Archive: base64.StdEncoding.EncodeToString(archive)})
+func loadInChild(env *kit.Env, cfg emem.Config, vmc *evm.Cfg, netc *enoc.Net, archive []byte) string {
+	in, _ := json.Marshal(loadReq{Cfg: cfg, VM: vmc, Net: netc, HasPT: extraPT != nil, Archive: base64.StdEncoding.EncodeToString(archive)})
 	cmd := exec.Command("sh", "-c", `ulimit -v 6291456; exec "$0" -helper c07load`, env.Exe)
 	cmd.Stdin = bytes.NewReader(in)
 
@@ -496,7 +509,8 @@ func c07LoadHelper(_ []string) {
 			}
 		}()
 
-		s := newSim(&req.Cfg, env, false)
+		u := C06Case{Cfg: req.Cfg, VM: req.VM, Net: req.Net}
+		s := u.build(env, false)
 		if err := s.sim.LoadCheckpoint(path, buildID); err != nil {
 			return "error: " + err.Error()
 		}
@@ -521,7 +535,8 @@ func execC07(c C07Case, env *kit.Env) kit.Outcome {
 
 	defer func() { extraPT = nil }()
 
-	a := newSim(&c.Cfg, env, true)
+	u := C06Case{Cfg: c.Cfg, VM: c.VM, Net: c.Net}
+	a := u.build(env, true)
 	a.guarded(func() { _ = a.eng.RunUntil(timing.VTimeInPicoSec(c.Cut)) })
 
 	if a.capHit {
@@ -546,7 +561,7 @@ func execC07(c C07Case, env *kit.Env) kit.Outcome {
 	defer os.Remove(xPath)
 
 	// (a) canonical: save -> load into a rebuilt simulation -> save again
-	b := newSim(&c.Cfg, env, false)
+	b := u.build(env, false)
 	if err := b.sim.LoadCheckpoint(xPath, buildID); err != nil {
 		b.close()
 		out.Violation = kit.Violate("canonical-archive", "C07:identical-rebuild-rejected", "LoadCheckpoint into the identically rebuilt simulation failed: %v", err)
@@ -564,7 +579,145 @@ func execC07(c C07Case, env *kit.Env) kit.Outcome {
 
 	// (b) every single-point mutation of the rebuilt configuration must be rejected
 	cat := mismatchCatalogue(c.Cfg)
+	if c.VM != nil || c.Net != nil {
+		cat = nil
+	}
+
 	rejected := 0
+
+	// loads the archive into the simulation that mk builds; must be refused
+	checkWith := func(name string, mk func() *simRun, id string) *kit.Violation {
+		var v *kit.Violation
+
+		func() {
+			defer func() {
+				if r := recover(); r != nil {
+					v = kit.Violate("mismatch-rejected", "C07:mismatch-panics["+kindOf(name)+"]", "loading into a simulation rebuilt with %s panicked: %v", name, r)
+				}
+			}()
+
+			m := mk()
+			defer m.close()
+
+			if err := m.sim.LoadCheckpoint(xPath, id); err == nil {
+				v = kit.Violate("mismatch-rejected", "C07:mismatch-accepted["+kindOf(name)+"]", "the archive loaded without error into a simulation rebuilt with a different configuration (%s)", name)
+			}
+		}()
+
+		return v
+	}
+
+	if c.VM != nil {
+		muts := map[string]func(v *evm.Cfg){
+			"vm:page-size":    func(v *evm.Cfg) { v.Log2Page++ },
+			"vm:mmu-latency":  func(v *evm.Cfg) { v.MMULatency++ },
+			"vm:mmu-inflight": func(v *evm.Cfg) { v.MMUInflight++ },
+		}
+
+		if len(c.VM.TLBs) > 0 {
+			muts["vm:tlb-ways"] = func(v *evm.Cfg) { v.TLBs = append([]evm.TLBCfg(nil), v.TLBs...); v.TLBs[0].Ways++ }
+			muts["vm:tlb-removed"] = func(v *evm.Cfg) { v.TLBs = v.TLBs[1:] }
+		}
+
+		if c.VM.MMUCache {
+			muts["vm:mmucache-blocks"] = func(v *evm.Cfg) { v.MCBlocks++ }
+		}
+
+		if len(c.VM.Reqs) > 0 && len(c.VM.Reqs[0].Ops) > 1 {
+			muts["vm:requester-script"] = func(v *evm.Cfg) {
+				v.Reqs = append([]evm.VReq(nil), v.Reqs...)
+				v.Reqs[0].Ops = v.Reqs[0].Ops[:len(v.Reqs[0].Ops)-1]
+			}
+		}
+
+		var names []string
+		for n := range muts {
+			names = append(names, n)
+		}
+
+		sort.Strings(names)
+
+		for _, n := range names {
+			if c.OnlyMut != "" && c.OnlyMut != n {
+				continue
+			}
+
+			q := *c.VM
+			muts[n](&q)
+
+			if v := checkWith(n, func() *simRun { return newSimVM(&q, env, false) }, buildID); v != nil {
+				out.Violation = v
+				return out
+			}
+
+			rejected++
+		}
+	}
+
+	if c.Net != nil {
+		muts := map[string]func(n *enoc.Net){}
+
+		if c.Net.Kind == "generic" || c.Net.Kind == "mesh" {
+			// the PCIe and NVLink connectors take their flit size from the link version
+			muts["net:flit-size"] = func(n *enoc.Net) { n.FlitSize *= 2 }
+		}
+
+		if c.Net.Kind == "generic" {
+			muts["net:port-buffer-capacity"] = func(n *enoc.Net) { n.Link.Buf++ }
+		}
+
+		// one more device: the entity set differs
+		muts["net:extra-device"] = func(n *enoc.Net) {
+			d := n.Devs[len(n.Devs)-1]
+			d.Tile = [3]int{d.Tile[0] + 1, d.Tile[1], d.Tile[2]}
+
+			if n.Kind == "mesh" {
+				far := 0
+				for _, o := range n.Devs {
+					far = max(far, o.Tile[0])
+				}
+
+				d.Tile = [3]int{far + 1, 0, 0}
+			}
+
+			n.Devs = append(append([]enoc.Dev(nil), n.Devs...), d)
+		}
+
+		if len(c.Net.Msgs) > 1 {
+			muts["net:device-script"] = func(n *enoc.Net) { n.Msgs = n.Msgs[:len(n.Msgs)-1] }
+		}
+
+		if c.Net.Kind == "generic" {
+			muts["net:extra-switch"] = func(n *enoc.Net) {
+				n.Links = append(append([][2]int(nil), n.Links...), [2]int{0, n.Switches})
+				n.Switches++
+			}
+		}
+
+		var names []string
+		for n := range muts {
+			names = append(names, n)
+		}
+
+		sort.Strings(names)
+
+		for _, nm := range names {
+			if c.OnlyMut != "" && c.OnlyMut != nm {
+				continue
+			}
+
+			q := *c.Net
+			q.Msgs = append([]enoc.TMsg(nil), c.Net.Msgs...)
+			muts[nm](&q)
+
+			if v := checkWith(nm, func() *simRun { return newSimNet(&q, env, false) }, buildID); v != nil {
+				out.Violation = v
+				return out
+			}
+
+			rejected++
+		}
+	}
 
 	check := func(name string, cfg emem.Config, id string) *kit.Violation {
 		var v *kit.Violation
@@ -588,7 +741,7 @@ func execC07(c C07Case, env *kit.Env) kit.Outcome {
 	}
 
 	if c.OnlyMut == "" || c.OnlyMut == "build-id" {
-		if v := check("build-id", c.Cfg, buildID+"-other"); v != nil {
+		if v := checkWith("build-id", func() *simRun { return u.build(env, false) }, buildID+"-other"); v != nil {
 			out.Violation = v
 			return out
 		}
@@ -619,7 +772,7 @@ func execC07(c C07Case, env *kit.Env) kit.Outcome {
 		}
 
 		applied[k.Kind]++
-		res := loadInChild(env, c.Cfg, d)
+		res := loadInChild(env, c.Cfg, c.VM, c.Net, d)
 
 		switch {
 		case strings.HasPrefix(res, "panic:"):
@@ -648,9 +801,22 @@ func execC07(c C07Case, env *kit.Env) kit.Outcome {
 	sort.Strings(kinds)
 	out.Fault("config-mismatch(enumerated)", rejected)
 	out.Probe("cut-after-first-event", btoi(pendingAtCut))
-	out.Shape = fmt.Sprintf("%s|%d|%v", emem.Describe(&c.Cfg), c.Cut, kinds)
-	out.NonTrivial = rejected >= 5 && pendingAtCut
-	out.Sample = map[string]any{"assembly": emem.Describe(&c.Cfg), "cut": c.Cut, "mismatches_enumerated": rejected, "corruptions": kinds}
+	desc := emem.Describe(&c.Cfg)
+
+	switch {
+	case c.VM != nil:
+		desc = fmt.Sprintf("vm-stack tlbs=%d mmucache=%v gmmu=%v reqs=%d", len(c.VM.TLBs), c.VM.MMUCache, c.VM.GMMU, len(c.VM.Reqs))
+		out.Probe("assembly:vm-stack", 1)
+	case c.Net != nil:
+		desc = enoc.Describe(c.Net)
+		out.Probe("assembly:network", 1)
+	default:
+		out.Probe("assembly:memory-hierarchy", 1)
+	}
+
+	out.Shape = fmt.Sprintf("%s|%d|%v", desc, c.Cut, kinds)
+	out.NonTrivial = (rejected >= 5 || (c.VM != nil || c.Net != nil) && rejected >= 2) && pendingAtCut
+	out.Sample = map[string]any{"assembly": desc, "cut": c.Cut, "mismatches_enumerated": rejected, "corruptions": kinds}
 
 	return out
 }
@@ -667,7 +833,7 @@ func init() {
 	kit.RegisterHelper("c07load", c07LoadHelper)
 	kit.Register(kit.Spec[C07Case]{
 		ID: "C07", Level: "fault_enumeration",
-		Rule: "random memory hierarchies on a real simulation.Simulation, run to a seeded cut and saved; (a) the archive is loaded into an identically rebuilt simulation and saved again: byte-identical; (b) the whole catalogue of single-point mutations of the rebuilt configuration that applies to the assembly is enumerated " +
+		Rule: "random memory hierarchies (one run in three: a translation stack or a switched network, with their own mismatch lists: page size, TLB geometry, MMU parameters, requester script; flit size, device script, extra switch) on a real simulation.Simulation, run to a seeded cut and saved; (a) the archive is loaded into an identically rebuilt simulation and saved again: byte-identical; (b) the whole catalogue of single-point mutations of the rebuilt configuration that applies to the assembly is enumerated " +
 			"(build ID; requester / ROB / lower-module added or removed; connection layout; every cache's ways, MSHR, bank latency, write policy; requester script and max outstanding; ROB size; controller latency / banks / page policy; connection frequency; every port buffer capacity; storage capacity): LoadCheckpoint must return an error and must not panic; " +
 			"(c) 5 (thorough 12) seeded storage faults on the archive (truncation, bit flip, zero fill, dropped / duplicated / swapped / renamed tar entries, missing build ID, port buffer over its capacity, unknown or empty event handler on the first queued event, unknown event / message type tag, absurd storage unit count, storage unit beyond capacity, wrong spec hash, wrong JSON type in a State, wrong ID-generator kind) are loaded in a child process under a 6 GiB address-space limit: never a panic or a resource blow-up, an error where the damage is structural, and an accepted archive must be savable again; " +
 			"distinct = hash of (assembly, cut, corruption kinds); non-trivial = >= 5 mismatches enumerated and the cut lies after the first event",
@@ -685,6 +851,10 @@ func init() {
 				q := c
 				q.Corrupt = l
 				out = append(out, q)
+			}
+
+			if c.VM != nil || c.Net != nil {
+				return out
 			}
 
 			for _, q := range emem.ShrinkConfig(c.Cfg) {
